@@ -347,6 +347,33 @@ def run(prog: Program, rep, thorough: bool) -> None:
             problems.append(f'the zero stored is {z!r}, not the elevation found')
         if leaf.state.heap[shot_i.oid].get('weapon') is not weapon_i:
             problems.append('the shot no longer holds the weapon it was given')
+    # the evaluator follows the non-raising path of a try statement only: what the handlers of the two zeroing entry
+    # points do on the failing path is read directly - no handler / finally block may store into the shot
+    for fz in (swz, bet):
+        shot_name = fz.positional[1] if len(fz.positional) > 1 else None
+        for t_ in ast.walk(fz.node):
+            if not isinstance(t_, ast.Try):
+                continue
+            for blk in [h_.body for h_ in t_.handlers] + [t_.finalbody]:
+                for n_ in (x for b_ in blk for x in ast.walk(b_)):
+                    tgt = None
+                    if isinstance(n_, ast.Attribute) and isinstance(n_.ctx, (ast.Store, ast.Del)):
+                        tgt = n_
+                    elif isinstance(n_, ast.Call) and (dotted(n_.func) or '') == 'setattr' and n_.args:
+                        tgt = n_.args[0]
+                    if tgt is None:
+                        continue
+                    root = tgt
+                    while isinstance(root, (ast.Attribute, ast.Subscript)):
+                        root = root.value
+                    par_ = parent(tgt)
+                    if isinstance(par_, ast.Assign) and isinstance(par_.value, ast.Name) and any(
+                            isinstance(a_, ast.Assign) and len(a_.targets) == 1 and isinstance(a_.targets[0], ast.Name)
+                            and a_.targets[0].id == par_.value.id and norm(a_.value) == norm(tgt) for a_ in ast.walk(fz.node)):
+                        continue        # puts back a value saved from the same place: a restore, not a change
+                    if isinstance(root, ast.Name) and root.id == shot_name:
+                        problems.append(f'{fz.qualname} stores `{norm(tgt)[:50]}` in an exception handler / finally block (line '
+                                        f'{n_.lineno}): a failed attempt does not leave the stored zero (or the shot) untouched')
     if problems:
         rep.fail('C02.R2', ifm.path, swz.node.lineno, swz.qualname, 'store-order', 'set_weapon_zero: ' + '; '.join(sorted(set(problems))))
     else:
